@@ -74,6 +74,43 @@ pub fn families(focus: Focus) -> Vec<Box<dyn Family>> {
             },
         ),
         family(
+            "scripts_tolerance",
+            "scripts over pairs whose cross comparison is a NON-TRANSITIVE tolerance (old u32, new Tol: equal iff |a-b| <= 1): every valid script (valid under that comparison) of every pair over {0..3} with length <= 3 (thorough <= 4), plus random walks on pairs up to 14 items over {0..6}",
+            true,
+            1,
+            |cfg| {
+                let n = gen::all_seqs(4, if cfg.tiny { 2 } else { cfg.tier.pick(3, 4) }).len() as u64;
+                n * n
+            },
+            move |idx, cfg, out| {
+                use crate::mon::Tol;
+                let seqs = gen::all_seqs(4, if cfg.tiny { 2 } else { cfg.tier.pick(3, 4) });
+                let (a8, b8) = gen::pair_of(seqs, idx);
+                let a: Vec<u32> = a8.iter().map(|x| *x as u32).collect();
+                let b: Vec<Tol> = b8.iter().map(|x| Tol(*x as u32)).collect();
+                let mut n = 0u64;
+                gen::for_each_script_by(a.len(), b.len(), &|i, j| b[j] == a[i], &mut |script| {
+                    n += 1;
+                    run_script_typed::<Tol>(focus, &a, &b, Tol(8888), &[Tol(6666), Tol(6666)], script, 0, 0, out);
+                });
+                out.count_n("tolerance_scripts_enumerated", n);
+                out.sample(|| format!("old={:?} new(Tol)={:?}: all {} scripts valid under |a-b|<=1", a, b8, n));
+                // random longer ones
+                if idx % 4 == 0 {
+                    let mut rng = Rng::for_case(cfg.seed, "c10.scripts_tolerance", idx);
+                    for _ in 0..8 {
+                        let la = rng.below(if cfg.tiny { 4 } else { 15 });
+                        let lb = rng.below(if cfg.tiny { 4 } else { 15 });
+                        let a: Vec<u32> = (0..la).map(|_| rng.below(7) as u32).collect();
+                        let b: Vec<Tol> = (0..lb).map(|_| Tol(rng.below(7) as u32)).collect();
+                        let script = gen::rand_script_by(&mut rng, la, lb, &|i, j| b[j] == a[i]);
+                        let (po, pn) = (rng.below(3), rng.below(3));
+                        run_script_typed::<Tol>(focus, &a, &b, Tol(8888), &[Tol(6666), Tol(6666)], &script, po, pn, out);
+                    }
+                }
+            },
+        ),
+        family(
             "scripts_long",
             "long scripts: (a) an insertion / deletion next to a run of 1100..9000 identical items split into equal calls of random lengths (the clean-up must slide the edit across the whole run), (b) scripts with MORE than 65536 calls (delete(1) equal(1) repeated, then insert(1) equal(2)), (c) random-walk scripts of near-identical pairs of 300..3000 items",
             false,
@@ -176,27 +213,27 @@ fn exh_pair(focus: Focus, a: &[u8], b: &[u8], out: &mut Local) {
     out.sample(|| format!("old={:?} new={:?}: all {} valid scripts", a, b, n));
 }
 
-fn slide_possible(a: &[u32], b: &[u32], script: &[Step]) -> bool {
+fn slide_possible(aeq: &dyn Fn(usize, usize) -> bool, beq: &dyn Fn(usize, usize) -> bool, script: &[Step]) -> bool {
     // a change next to an Equal whose boundary item equals the boundary item of the change
     for w in script.windows(2) {
         match (w[0], w[1]) {
             (Step::Eq(o, _, l), Step::Del(d, dl, _)) => {
-                if a[o + l - 1] == a[d + dl - 1] {
+                if aeq(o + l - 1, d + dl - 1) {
                     return true;
                 }
             }
             (Step::Eq(_, n, l), Step::Ins(_, i, il)) => {
-                if b[n + l - 1] == b[i + il - 1] {
+                if beq(n + l - 1, i + il - 1) {
                     return true;
                 }
             }
             (Step::Del(d, _, _), Step::Eq(o, _, _)) => {
-                if a[d] == a[o] {
+                if aeq(d, o) {
                     return true;
                 }
             }
             (Step::Ins(_, i, _), Step::Eq(_, n, _)) => {
-                if b[i] == b[n] {
+                if beq(i, n) {
                     return true;
                 }
             }
@@ -207,13 +244,22 @@ fn slide_possible(a: &[u32], b: &[u32], script: &[Step]) -> bool {
 }
 
 fn run_script(focus: Focus, a: &[u32], b: &[u32], script: &[Step], po: usize, pn: usize, out: &mut Local) {
+    run_script_typed::<u32>(focus, a, b, 8888, &[6666, 6666], script, po, pn, out)
+}
+
+/// `NT` is the new-side item type; only `NT: PartialEq<u32>` relates the two sides.
+#[allow(clippy::too_many_arguments)]
+fn run_script_typed<NT>(focus: Focus, a: &[u32], b: &[NT], fill: NT, tail: &[NT], script: &[Step], po: usize, pn: usize, out: &mut Local)
+where
+    NT: PartialEq<u32> + Copy + std::fmt::Debug + PartialEq + std::hash::Hash,
+{
     // embed at offsets (po, pn) inside larger buffers; reads outside the pair hit the red zone
     let mut bufa = vec![9999u32; po];
     bufa.extend_from_slice(a);
     bufa.extend_from_slice(&[7777, 7777]);
-    let mut bufb = vec![8888u32; pn];
+    let mut bufb: Vec<NT> = vec![fill; pn];
     bufb.extend_from_slice(b);
-    bufb.extend_from_slice(&[6666, 6666]);
+    bufb.extend_from_slice(tail);
     let or = po..po + a.len();
     let nr = pn..pn + b.len();
     let old = StrictLookup { data: &bufa, allowed: or.clone(), base: 0 };
@@ -227,7 +273,7 @@ fn run_script(focus: Focus, a: &[u32], b: &[u32], script: &[Step], po: usize, pn
         })
         .map(|s| s.to_op())
         .collect();
-    let eq = |o: usize, n: usize| bufa[o] == bufb[n];
+    let eq = |o: usize, n: usize| bufb[n] == bufa[o];
     let (mut d0, mut i0) = (0usize, 0usize);
     for s in script {
         match *s {
@@ -236,10 +282,10 @@ fn run_script(focus: Focus, a: &[u32], b: &[u32], script: &[Step], po: usize, pn
             _ => {}
         }
     }
-    if slide_possible(a, b, script) {
+    if slide_possible(&|i: usize, j: usize| a[i] == a[j], &|i: usize, j: usize| b[i] == b[j], script) {
         out.nontrivial(&(a, b, script, po, pn));
     }
-    let ctx = || format!("old={} new={} offsets=({},{}) script={}", fmt_seq(a), fmt_seq(b), po, pn, fmt_ops(&ops_in));
+    let ctx = || format!("old={} new({})={} offsets=({},{}) script={}", fmt_seq(a), std::any::type_name::<NT>().rsplit("::").next().unwrap_or(""), fmt_seq(b), po, pn, fmt_ops(&ops_in));
 
     let stacks: &[u8] = if focus == Focus::C09 { &[2] } else { &[0, 1, 2] };
     for &stack in stacks {
